@@ -19,8 +19,8 @@ CONSTANTS MaxOps,       \* operations per client
 
 NoCfg == [cap |-> Unb, strat |-> "restart", stream |-> FALSE, tmo |-> 0, failto |-> FALSE, owning |-> FALSE,
           sscr |-> <<>>, pscr |-> <<>>, fscr |-> <<>>, ty |-> "0", items0 |-> 0, ended0 |-> FALSE, iscr |-> <<>>]
-Op(k, x, nh, s, d, to) == [op |-> k, h |-> x, nh |-> nh, a |-> "none", scr |-> s, cfg |-> NoCfg, d |-> d, to |-> to, ty |-> "0", nh2 |-> "none"]
-RegOp(k, x, T, nh, nh2) == [op |-> k, h |-> x, nh |-> nh, a |-> "none", scr |-> <<>>, cfg |-> NoCfg, d |-> 0, to |-> "none", ty |-> T, nh2 |-> nh2]
+Op(k, x, nh, s, d, to) == [op |-> k, h |-> x, nh |-> nh, a |-> "none", scr |-> s, cfg |-> NoCfg, d |-> d, to |-> to, ty |-> "0", nh2 |-> "none", h2 |-> "none"]
+RegOp(k, x, T, nh, nh2) == [op |-> k, h |-> x, nh |-> nh, a |-> "none", scr |-> <<>>, cfg |-> NoCfg, d |-> 0, to |-> "none", ty |-> T, nh2 |-> nh2, h2 |-> "none"]
 
 VARIABLE nf   \* faults injected so far
 mcvars == <<vars, nf>>
@@ -49,7 +49,7 @@ MCInit ==
               LET c == CHOOSE d \in Client : InitKinds[d].h = x IN
               [kind |-> InitKinds[c].kind, a |-> "a1", owner |-> c, polled |-> FALSE]]
            @@ [x \in DOMAIN ExtraHandles |-> [kind |-> ExtraHandles[x].kind, a |-> ExtraHandles[x].a, owner |-> ExtraHandles[x].owner, polled |-> FALSE]]
-  /\ cli = [c \in Client |-> IdleClient]
+  /\ cli = [c \in Tasker |-> IdleClient]
   /\ rsp = <<>> /\ tmr = <<>> /\ reg = InitReg /\ now = 0 /\ cur = None /\ yl = FALSE
   /\ hst = [InitHist EXCEPT !.ninst = 1 + Cardinality(DOMAIN ExtraActors)]
   /\ nf = 0
@@ -66,6 +66,7 @@ OpsFor(c) ==
       \cup (IF HasFresh2 THEN {RegOp(k, x, "0", Fresh, Fresh2) : <<k, x>> \in (OpSet \cap {"register", "replace"}) \X {y \in mine : hnd[y].kind = "addr"}}
                               \cup {RegOp(k, "none", T, Fresh, Fresh2) : <<k, T>> \in (OpSet \cap {"from_registry", "setup", "unregister", "try_from_registry", "already_running"}) \X Types}
              ELSE {})
+      \cup {RegOp("publish", "none", T, "none", "none") : T \in (IF "publish" \in OpSet THEN Types ELSE {})}
 
 Sch == UNCHANGED <<cur, yl, nf>>
 CanOp(c) == cli[c].n < MaxOps
@@ -178,6 +179,14 @@ ScriptsSleep2 == {<<>>, <<Sl(1)>>, <<Sl(2)>>, <<Sl(3)>>, <<Y, Sl(2)>>}
 NoExtra == <<>>
 StreamCfg(cap, n, ended, fs) == [Cfg(cap, "none", 0, FALSE, FALSE, <<<<>>>>, <<Y>>) EXCEPT !.stream = TRUE, !.items0 = n, !.ended0 = ended, !.fscr = fs, !.iscr = <<Y>>]
 CfgsStream == {StreamCfg(cap, n, e, <<Y>>) : cap \in {Unb, 1}, n \in {0, 2}, e \in {FALSE, TRUE}}
+Sub(T) == Eff("subscribe", T, "")
+Pub(T) == Eff("publish", T, "")
+CfgsSub == {Cfg(cap, "restart", 0, FALSE, FALSE, <<ss>>, <<>>) : cap \in {Unb, 1}, ss \in {<<Sub(1)>>, <<>>}}
+CfgsSub1 == {Cfg(1, "restart", 0, FALSE, FALSE, <<<<Sub(1)>>>>, <<>>)}
+ScriptsPub == {<<>>, <<Pub(1)>>}
+SubActors == ("a2" :> Cfg(Unb, "restart", 0, FALSE, FALSE, <<<<Sub(1)>>>>, <<>>))
+SubHandles == ("k2" :> [kind |-> "addr", a |-> "a2", owner |-> "c2"])
+ScriptsBroker == {<<>>, <<Pub(1)>>, <<Sub(1)>>}
 CfgsSvc == {[Cfg(Unb, "restart", 0, FALSE, FALSE, <<<<>>>>, <<Y>>) EXCEPT !.ty = "1"]}
 NamesMore == <<"n1", "n2", "n3", "n4", "n5", "n6">>
 \* parent a1 with children a2 (unit bucket, also held by c2) and a3 (bc bucket, child of a2: depth 3)
